@@ -602,3 +602,36 @@ Example ml_glue_and_peeker_example :
   /\ peek_loop (ml_fuel {| r_rest := s; r_hist := h |}) 3 [] [] {| r_rest := s; r_hist := h |}
      = PeekOk [97; 10; 98]%N [1; 2; 2; 3] {| r_rest := [10; 99; 10]%N; r_hist := [RChunk 1] |}.
 Proof. vm_compute. repeat split; reflexivity. Qed.
+
+(* the source tie (DESIGN §4.2): the definitions of Gen/DecisionsLib.v are regenerated on every run from the
+   current text of crates/searcher/src/searcher/mod.rs (Config::max_context, Searcher::multi_line_with_matcher,
+   Searcher::slice_needs_transcoding); they equal the model definitions for all arguments. *)
+From RG Require Gen.DecisionsLib Proofs.GenLibProofs Model.Decode.
+Theorem max_context_generated_eq_model : forall cfg : config,
+  DecisionsLib.max_context (c_before cfg) (c_after cfg) = SearcherCore.max_context cfg.
+Proof. exact GenLibProofs.max_context_eq. Qed.
+Print Assumptions max_context_generated_eq_model.
+
+Theorem multi_line_with_matcher_generated_eq_model :
+  forall (cfg : config) (M : matcher) (nmb : option (byte -> bool)),
+    (forall b : byte, m_nonmatching M b = match nmb with Some f => f b | None => false end) ->
+    DecisionsLib.multi_line_with_matcher (c_multi_line cfg) (m_line_term M) (c_lt cfg) nmb
+    = Glue.multi_line_with_matcher cfg M.
+Proof. exact GenLibProofs.multi_line_with_matcher_eq. Qed.
+Print Assumptions multi_line_with_matcher_generated_eq_model.
+Example multi_line_tie_satisfiable : forall M : matcher,
+  forall b : byte, m_nonmatching M b = match Some (m_nonmatching M) with Some f => f b | None => false end.
+Proof. exact GenLibProofs.nm_agrees_some. Qed.
+
+Theorem slice_needs_transcoding_generated_eq_model : forall (enc_set bom_sniffing : bool) (s : bytes),
+  DecisionsLib.slice_needs_transcoding enc_set bom_sniffing (SearcherGlue.slice_has_bom s)
+  = SearcherGlue.needs_transcoding enc_set bom_sniffing s.
+Proof. exact GenLibProofs.slice_needs_transcoding_eq_glue. Qed.
+Print Assumptions slice_needs_transcoding_generated_eq_model.
+
+Theorem slice_needs_transcoding_generated_eq_decode_model : forall (c : Decode.enc_config) (s : bytes),
+  DecisionsLib.slice_needs_transcoding (match Decode.ec_encoding c with Some _ => true | None => false end)
+                                       (Decode.ec_bom_sniffing c) (Decode.slice_has_bom s)
+  = Decode.slice_needs_transcoding c s.
+Proof. exact GenLibProofs.slice_needs_transcoding_eq_decode. Qed.
+Print Assumptions slice_needs_transcoding_generated_eq_decode_model.
